@@ -7,12 +7,13 @@
 (* hang, or an effect on another connection is not in the range of Outcomes for any state     *)
 (* and any message -- that is property C04.                                                    *)
 (*                                                                                              *)
-(* State  [hs, role, conn, cs, part, mode]                                                     *)
+(* State  [hs, role, cs, part, mode]                                                           *)
 (*   hs    bytes of the handshake (C0C1 1537 + C2 1536) lal still has to read: lal checks      *)
 (*         nothing in them, whatever arrives is consumed                                       *)
-(*   role  "none" | "pub" | "sub"     conn  a connect command was accepted                     *)
+(*   role  "none" | "pub" | "sub"  (lal keeps no record of connect / createStream)             *)
 (*   cs    chunk size announced by the peer ("0","1","128","4096","max31","max32")             *)
-(*   part  an unfinished message sits on the chunk stream used by lenmax / shrink              *)
+(*   part  how much of an unfinished message sits on the chunk stream used by lenmax / shrink  *)
+(*         ("no" | "some" | "many" = more than the four bytes of the message shrink announces)  *)
 (*   mode  "sync"    lal and the peer agree where the next chunk starts                        *)
 (*         "desync"  they do not (bytes spilled over the handshake, junk, a payload that the   *)
 (*                   announced chunk size cannot carry, a header that shortens an unfinished   *)
@@ -26,9 +27,9 @@ EXTENDS Integers, Sequences, TLC, Json
 HsLen == 3073
 Big == {"max31", "max32"}
 
-St0 == [hs |-> HsLen, role |-> "none", conn |-> FALSE, cs |-> "128", part |-> FALSE, mode |-> "sync"]
-Norm(mode) == [hs |-> 0, role |-> "none", conn |-> FALSE, cs |-> "128", part |-> FALSE, mode |-> mode]
-Ready(role) == [hs |-> 0, role |-> role, conn |-> role # "none", cs |-> "128", part |-> FALSE, mode |-> "sync"]
+St0 == [hs |-> HsLen, role |-> "none", cs |-> "128", part |-> "no", mode |-> "sync"]
+Norm(mode) == [hs |-> 0, role |-> "none", cs |-> "128", part |-> "no", mode |-> mode]
+Ready(role) == [hs |-> 0, role |-> role, cs |-> "128", part |-> "no", mode |-> "sync"]
 
 Served == {"served"}
 Closed == {"closed"}
@@ -50,7 +51,7 @@ Drop(st) == [o |-> Closed, t |-> st]
 
 Cmd(st, name, shape) ==
   IF shape \in ParseFail THEN Drop(st)
-  ELSE CASE name = "connect" -> IF shape \in ConnectOk THEN [o |-> Served, t |-> [st EXCEPT !.conn = TRUE]] ELSE Drop(st)
+  ELSE CASE name = "connect" -> IF shape \in ConnectOk THEN Keep(st) ELSE Drop(st)
          [] name = "publish" -> IF shape \in PublishOk /\ st.role = "none"
                                   THEN [o |-> Served, t |-> [st EXCEPT !.role = "pub"]] ELSE Drop(st)
          [] name = "play"    -> IF shape \in PlayOk /\ st.role = "none"
@@ -66,7 +67,8 @@ Other(st, t, s) ==
     [] t \in {"3", "5"} -> IF s = "16" THEN Keep(st) ELSE Drop(st)
     [] t = "4" -> IF s = "16" THEN Keep(st) ELSE Drop(st)
     [] t \in {"8", "9"} -> IfPub(st)
-    [] t \in {"17", "18", "20"} -> Drop(st)
+    [] t = "17" -> IF s = "16" THEN Keep(st) ELSE Drop(st)   \* 00 | "" | number: an unknown command
+    [] t \in {"18", "20"} -> Drop(st)
     [] t = "22" -> IF s = "empty" THEN Keep(st) ELSE Drop(st)
     [] OTHER -> Keep(st)
 
@@ -78,10 +80,16 @@ NoPayload(st, msg) ==
   \/ msg.m \in {"ack", "winack", "uc"} /\ msg.s = "0"
   \/ msg.m \in {"other", "cmd", "cmd3", "scs"} /\ msg.s = "empty"
   \/ msg.m \in {"data", "audio", "video", "agg"} /\ msg.a = "empty"
-  \/ msg.m = "chunk" /\ msg.a \in {"f3fresh", "f2fresh", "csid3lo", "exttssmall", "lenmax"}
+  \/ msg.m = "chunk" /\ msg.a \in {"f3fresh", "f2fresh", "csid3lo", "exttssmall"}
+  \/ msg.m = "chunk" /\ msg.a = "lenmax" /\ st.cs = "0"
   \/ msg.m = "chunk" /\ msg.a = "f1fresh" /\ st.cs \in {"0", "1"}
 
 Desync(st) == [o |-> Either, t |-> Norm("desync")]
+
+\* bytes of the unfinished 16 MiB message after one more chunk of it: none / a few / more than four
+Part(st) == CASE st.cs \in {"128", "4096"} -> "many"
+              [] st.cs = "1" -> IF st.part = "many" THEN "many" ELSE "some"
+              [] OTHER -> st.part
 
 Sync(st, msg) ==
   CASE msg.m \in {"c0c1", "c2", "junk"} -> Desync(st)
@@ -99,9 +107,12 @@ Sync(st, msg) ==
                           [] OTHER -> Drop(st)
     [] msg.m = "chunk" ->
          CASE msg.a = "lenmax" -> IF st.cs \in Big THEN [o |-> Served, t |-> Norm("swallow")]
-                                  ELSE [o |-> Served, t |-> [st EXCEPT !.part = (st.cs # "0")]]
+                                  ELSE [o |-> Served, t |-> [st EXCEPT !.part = Part(st)]]
            [] msg.a = "truncnew" -> Desync(st)
-           [] msg.a = "shrink" -> IF st.part THEN Desync(st) ELSE Keep(st)
+           \* a header that makes an unfinished message shorter than what has been received of it
+           [] msg.a = "shrink" -> CASE st.part = "no" -> Keep(st)
+                                    [] st.part = "some" -> Desync(st)
+                                    [] OTHER -> Drop(st)
            [] OTHER -> Keep(st)
 
 \* Step: what may be observed after the peer has sent msg (n bytes on the wire) in state st.
